@@ -36,24 +36,9 @@ type vfLimitCase struct {
 	Zero        bool   `json:"zeroPadding"` // highly compressible padding
 }
 
-var (
-	vfLimitMu   sync.Mutex
-	vfLimitSrvs = map[int]*verifsrv.Server{}
-)
-
 func vfLimitServer(limit int) (*verifsrv.Server, error) {
-	vfLimitMu.Lock()
-	defer vfLimitMu.Unlock()
-	if s, ok := vfLimitSrvs[limit]; ok {
-		return s, nil
-	}
-	s, err := verifsrv.Start(&conformancev1.ServerCompatRequest{Protocol: conformancev1.Protocol_PROTOCOL_CONNECT,
-		HttpVersion: conformancev1.HTTPVersion_HTTP_VERSION_2, MessageReceiveLimit: uint32(limit)})
-	if err != nil {
-		return nil, err
-	}
-	vfLimitSrvs[limit] = s
-	return s, nil
+	return verifsrv.Cached(fmt.Sprintf("c19-%d", limit), &conformancev1.ServerCompatRequest{Protocol: conformancev1.Protocol_PROTOCOL_CONNECT,
+		HttpVersion: conformancev1.HTTPVersion_HTTP_VERSION_2, MessageReceiveLimit: uint32(limit)}, 1500)
 }
 
 // vfSizedMessage sets the bytes field so that proto.Size(m) == size exactly.
@@ -125,10 +110,11 @@ func vfLimitServerCheck(c vfLimitCase) error {
 	vfRecSeq++
 	name := fmt.Sprintf("verif/c19/%d", vfRecSeq)
 	vfRecMu.Unlock()
+	viaHost, viaPort := vfVia(srv.Host, srv.Port)
 	req := &conformancev1.ClientCompatRequest{
 		TestName: name, HttpVersion: conformancev1.HTTPVersion_HTTP_VERSION_2, Protocol: conformancev1.Protocol(c.Protocol),
 		Codec: conformancev1.Codec_CODEC_PROTO, Compression: conformancev1.Compression(c.Compression),
-		Host: srv.Host, Port: srv.Port, Service: proto.String("connectrpc.conformance.v1.ConformanceService"), Method: proto.String(method),
+		Host: viaHost, Port: viaPort, Service: proto.String("connectrpc.conformance.v1.ConformanceService"), Method: proto.String(method),
 		StreamType:     streamType,
 		RequestHeaders: []*conformancev1.Header{{Name: "X-Test-Case-Name", Value: []string{name}}},
 	}
@@ -167,13 +153,7 @@ func vfLimitServerCheck(c vfLimitCase) error {
 }
 
 func TestVerifC19LimitServer(t *testing.T) {
-	defer func() {
-		vfLimitMu.Lock()
-		defer vfLimitMu.Unlock()
-		for _, s := range vfLimitSrvs {
-			s.Stop()
-		}
-	}()
+	defer verifsrv.StopCached()
 	verifkit.Run(t, "C19LimitServer", verifkit.Spec[vfLimitCase]{
 		Gen: func(t *rapid.T) vfLimitCase {
 			return vfLimitCase{
@@ -270,7 +250,7 @@ func vfStartPlainResponders() error {
 			if i == 1 {
 				handler = h2c.NewHandler(handler, &http2.Server{})
 			}
-			lis, err := net.Listen("tcp", "127.0.0.1:0")
+			lis, err := vfListen()
 			if err != nil {
 				vfPlainErr = err
 				return
